@@ -36,8 +36,9 @@ type Stmt struct {
 }
 
 type Scenario struct {
-	Stmts []Stmt         `json:"stmts"`
-	Order simrt.MapOrder `json:"order"`
+	SwapAt int            `json:"swap_at,omitempty"` // the embedder registers a NEW UI for the same REPL / context before this statement (0: never)
+	Stmts  []Stmt         `json:"stmts"`
+	Order  simrt.MapOrder `json:"order"`
 }
 
 type Engine struct{}
@@ -276,7 +277,9 @@ func (g *sgen) stmt() Stmt {
 			return Stmt{Kind: "compound", Lines: []string{"if True:", in + g.v() + " = " + a, in, in + g.v() + " = " + b}, Ticks: []int{t, t2}}
 		}
 	case x < 37:
-		bad := []string{"x = = 1", "1 +* 2", "def (:", "v0 = )", "if", "for in x:", "v1 = 5 5", "class :", "return", "a b", "v0 = ) \\", "1 +* 2 \\"}
+		bad := []string{"x = = 1", "1 +* 2", "def (:", "v0 = )", "if", "for in x:", "v1 = 5 5", "class :", "return", "a b", "v0 = ) \\", "1 +* 2 \\",
+			// unexpected indent at the primary prompt: an error, nothing runs
+			"   v0 = 777", "\tv1 = 778", " v2 = 779  # c", "        v3 = 780"}
 		return Stmt{Kind: "syntaxerr", Lines: []string{bad[r.Intn(len(bad))]}}
 	case x < 38:
 		a, t := g.tk("1")
@@ -344,6 +347,9 @@ func (Engine) Gen(seed uint64, idx int, tier string) interface{} {
 		}
 		sc.Stmts = append(sc.Stmts, st)
 	}
+	if r.Chance(1, 6) {
+		sc.SwapAt = 9 + r.Intn(n) // (the preamble is 9 statements)
+	}
 	return sc
 }
 
@@ -370,13 +376,19 @@ func (Engine) Shrink(sci interface{}) []interface{} {
 		if i == 0 {
 			continue
 		}
-		c := &Scenario{Order: sc.Order}
+		c := &Scenario{Order: sc.Order, SwapAt: sc.SwapAt}
 		c.Stmts = append(append([]Stmt(nil), sc.Stmts[:i]...), sc.Stmts[i+1:]...)
+		if sc.SwapAt > i {
+			c.SwapAt--
+		}
 		out = append(out, c)
+	}
+	if sc.SwapAt > 0 {
+		out = append(out, &Scenario{Order: sc.Order, Stmts: append([]Stmt(nil), sc.Stmts...)})
 	}
 	for i, st := range sc.Stmts {
 		if st.Blank > 0 {
-			c := &Scenario{Order: sc.Order, Stmts: append([]Stmt(nil), sc.Stmts...)}
+			c := &Scenario{Order: sc.Order, SwapAt: sc.SwapAt, Stmts: append([]Stmt(nil), sc.Stmts...)}
 			c.Stmts[i].Blank = 0
 			out = append(out, c)
 		}
@@ -400,6 +412,23 @@ type uiRec struct {
 	prompt string
 	prints []uiPrint
 	run    int
+	gen    int // the UI registered last
+	stale  []string
+}
+
+// uiFront is one registered UI; all of them record into the same uiRec, which
+// notes what arrives through a UI that has been replaced.
+type uiFront struct {
+	rec *uiRec
+	gen int
+}
+
+func (f *uiFront) SetPrompt(p string) { f.rec.prompt = p }
+func (f *uiFront) Print(s string) {
+	if f.gen != f.rec.gen {
+		f.rec.stale = append(f.rec.stale, s)
+	}
+	f.rec.Print(s)
 }
 
 type uiPrint struct {
@@ -560,7 +589,7 @@ func (Engine) Exec(sci interface{}, opt harness.ExecOpts) *harness.Outcome {
 				}
 			}
 		}
-		rp.SetUI(ui)
+		rp.SetUI(&uiFront{ui, 0})
 		feed := func(line string) {
 			ui.run++
 			simrt.Log("line", line)
@@ -570,6 +599,13 @@ func (Engine) Exec(sci interface{}, opt harness.ExecOpts) *harness.Outcome {
 			simrt.Log("prompt", ui.prompt)
 		}
 		for si, st := range sc.Stmts {
+			if sc.SwapAt > 0 && si == sc.SwapAt {
+				ui.gen++
+				rp.SetUI(&uiFront{ui, ui.gen})
+				if ui.prompt != gprepl.NormalPrompt {
+					promptErrs = append(promptErrs, fmt.Sprintf("statement %d: registering a UI between statements left the prompt %q", si, ui.prompt))
+				}
+			}
 			w := window{}
 			for li, line := range st.Lines {
 				feed(line)
@@ -644,6 +680,12 @@ func (Engine) Exec(sci interface{}, opt harness.ExecOpts) *harness.Outcome {
 		}
 		out.Violate(kind, kind, "%s", e)
 		break
+	}
+	if len(ui.stale) > 0 {
+		out.Violate("echo-to-replaced-ui", "stale-ui", "after the embedder registered a new UI (before statement %d) the old one still received %q", sc.SwapAt, ui.stale)
+	}
+	if sc.SwapAt > 0 {
+		out.Probe("ui_registered_again_mid_session")
 	}
 	// ticks: exactly once, in order, inside the statement's window
 	var want []tickRec // run field unused
